@@ -20,7 +20,7 @@ def probe_indices(r, D, level, present, exhaustive_limit=300):
 
 
 def gen_cases(tier, seed, configs):
-    n = 400 if tier == "quick" else 5000
+    n = 400 if tier == "quick" else 30000
     cases = []
     for k in range(n):
         r = gen.rng(seed, "C16", k)
